@@ -153,6 +153,7 @@ pub fn wait_for(pred: impl Fn(&[(u64, Ev)], &HashSet<(i32, Phase)>) -> bool, wat
             }
         }
         if t0.elapsed() > watchdog {
+            crate::mon::note_watchdog();
             return false;
         }
         let (ng, _) = CV
@@ -394,6 +395,7 @@ impl Server {
                 };
             }
             if t0.elapsed() > watchdog {
+                crate::mon::note_watchdog();
                 return Outcome::Watchdog;
             }
             self.pump(Duration::from_millis(5));
@@ -402,7 +404,7 @@ impl Server {
 
     pub fn request(&mut self, method: &str, params: Value) -> Outcome {
         let id = self.send(method, params);
-        self.outcome(id, Duration::from_secs(30))
+        self.outcome(id, Duration::from_secs(120))
     }
 
     pub fn formatting(&mut self, key: &str) -> Outcome {
